@@ -226,13 +226,14 @@ def check(w, tier, t0):
            "schedules_replayed": len(events), "schedules_followed_by_code": sum(1 for e in events if e["obs"]["drift"] == "" and len(e["hist"]) == e["nsteps"]),
            "storm_runs": len(conc), "storm_runs_race_detector": nproc * rper, "storm_operations": nops,
            "cold_runs": sum(1 for c in conc if not c["warm"]), "prepared_stmt_runs": sum(1 for c in conc if c["prepare"]),
+           "read_only_multi_connection_runs": sum(1 for c in conc if c.get("ro")),
            "max_goroutines": max([c["g"] for c in conc] or [0]),
            "distinct_race_reports": len(uniq), "fatal_errors": len(crashes), "race_reports_without_stack": unresolved,
            "race_pairs": sorted({"%s %s / %s %s" % (e["a"]["op"], e["a"]["fn"], e["b"]["op"], e["b"]["fn"]) for e in uniq})[:60],
-           "rule": "one evaluation = one TLC-generated behaviour of SchemaCache.tla (2-4 goroutines first-using related / unrelated model types on a cold or partly warm cache) forced onto the real schema cache through gates, or one storm run (2-32 goroutines, 3-8 operations each: Create with associations, Find, First, Preload (nested, clause.Associations), Joins, Update, Save, Delete, Transaction, Association Append/Count, Count on related and unrelated models, cold or warm cache, with and without PrepareStmt) compared with a serial run of the same programs",
+           "rule": "one evaluation = one TLC-generated behaviour of SchemaCache.tla (2-4 goroutines first-using related / unrelated model types on a cold or partly warm cache) forced onto the real schema cache through gates, or one storm run (2-32 goroutines, 3-8 operations each: Create with associations, Find, First, Preload (nested, clause.Associations), Joins, Update, Save, Delete, Transaction, Association Append/Count, Count, Rows+ScanRows, Pluck, Find into maps, a statement the database rejects, on related and unrelated models, cold or warm cache, with and without PrepareStmt) compared with a serial run of the same programs",
            "exhaustive": False}
     lib.write_evidence(PROP, tier, "model_checking", cov, time.time() - t0, len(verdict.violations),
-                       ["storms use one pooled connection (SetMaxOpenConns(1)): SQLite's own locking is not the subject, all gorm-level state is shared",
+                       ["read/write storms use one pooled connection (SetMaxOpenConns(1)): SQLite's own locking is not the subject, all gorm-level state is shared; read-only storms (a third of the runs) use 16 connections on pre-populated rows",
                         "data races are what the Go race detector reports on the storm runs (a dynamic detector: only executed interleavings)",
                         "race reports whose stack the detector could not restore are counted, not judged"])
     return rc
